@@ -330,8 +330,8 @@ static void runScenario(uint64_t caseNo, Rng & rng, const char * cfgName, bool o
 			const uint64_t p = S->progress.load(std::memory_order_relaxed);
 			if(p != lastProgress) { lastProgress = p; stalled = 0; continue; }
 			if(++stalled > 5000) { // 10 s without any progress
-				const std::string cyc = findLockCycle();
-				if(! cyc.empty()) violation("deadlock:lock-cycle", cyc);
+				std::string dkey; const std::string cyc = findDeadlock(dkey);
+				if(! cyc.empty()) violation(dkey, cyc);
 				else oplog("INCONCLUSIVE: no progress for 10 s and no lock cycle");
 				writeResult();
 				_exit(cyc.empty() ? 4 : 3);
